@@ -36,7 +36,11 @@ func FieldCase(r *rand.Rand, name string, o FieldOpts) *Case {
 	leaf := func() *Type { return Basic(leafBasics[r.Intn(len(leafBasics))]) }
 	// leafPair returns a convertible (source, target) pair of small types
 	leafPair := func() (*Type, *Type) {
-		switch r.Intn(7) {
+		switch r.Intn(8) {
+		case 7:
+			// pointer on both sides (below a pointer hop of a dotted path the leaf is then used as it is)
+			b := leaf()
+			return Ptr(b), Ptr(Basic(b.Basic))
 		case 0:
 			b := leaf()
 			return Named(decl(src, "SB", b)), Named(decl(tgt, "TB", Basic(b.Basic)))
